@@ -2,6 +2,9 @@ package rules
 
 import (
 	"fmt"
+	"go/constant"
+	"go/token"
+	"go/types"
 	"strings"
 
 	"golang.org/x/tools/go/ssa"
@@ -162,6 +165,8 @@ func findArityChecks(c *core.Ctx, an *lenflow.Analyzer, fn *ssa.Function, pi int
 func lenflowIsSlice(v ssa.Value) bool { return isObjectSlice(v.Type()) }
 
 func runC04(c *core.Ctx, r *core.Reporter) {
+	c.BuildSSA()
+	c04default(c, r)
 	const rule = "C04.arity"
 	r.Rule(rule, "for every registration with a literal FuncDoc.Args, the range enforced by the dominating CheckArgCount-family call on the Call method's argument list equals the range the documented lambda list allows "+
 		"(required .. required+optional+2*keys, open after &rest/&body/&allow-other-keys)", 600)
@@ -255,4 +260,99 @@ func rng(mn, mx int) string {
 func c04few(c *core.Ctx, r *core.Reporter) {
 	// implemented in c04_lambda.go
 	c04lambda(c, r)
+}
+
+// c04default: "defaults when absent": the default or init form of a lambda-list parameter is a form. The
+// value bound for an absent parameter must be the result of evaluating it. In (*Lambda).Call no binding
+// (Scope.Let) receives a value loaded from DocArg.Default directly; it goes through a function that evaluates
+// (one that calls Scope.Eval). Before 69db392 &optional and &key defaults were bound unevaluated:
+// (funcall (lambda (&optional (a 1) (b a)) (list a b))) => (1 a).
+func c04default(c *core.Ctx, r *core.Reporter) {
+	const rule = "C04.default"
+	r.Rule(rule, "in (*Lambda).Call the value bound to a parameter that was not supplied is never the DocArg.Default form itself: every binding of a default goes through a function that evaluates it in the scope of the call", 3)
+	fnObj := c.LookupFunc("", "Lambda.Call")
+	if fnObj == nil {
+		r.Undecided(rule, "slip.(Lambda).Call", "-", "anchor does not resolve")
+		return
+	}
+	fn := c.SSAFunc(fnObj)
+	evaluates := func(cal *ssa.Function) bool {
+		if cal == nil || cal.Blocks == nil {
+			return false
+		}
+		for _, b := range cal.Blocks {
+			for _, in := range b.Instrs {
+				if call, ok := in.(*ssa.Call); ok {
+					if g := call.Call.StaticCallee(); g != nil && g.Name() == "Eval" && g.Signature.Recv() != nil && core.IsNamed(g.Signature.Recv().Type(), core.SlipPath, "Scope") {
+						return true
+					}
+				}
+			}
+		}
+		return false
+	}
+	n := 0
+	for _, b := range fn.Blocks {
+		for _, in := range b.Instrs {
+			u, ok := in.(*ssa.UnOp)
+			if !ok {
+				continue
+			}
+			fa, ok := u.X.(*ssa.FieldAddr)
+			if !ok || fieldName(fa) != "Default" || !core.IsNamed(fa.X.Type(), core.SlipPath, "DocArg") {
+				continue
+			}
+			n++
+			// every use of the loaded default: an argument of an evaluating function, never of Let
+			okUse := true
+			detail := "handed to an evaluating function"
+			var visit func(v ssa.Value, depth int)
+			seen := map[ssa.Value]bool{}
+			visit = func(v ssa.Value, depth int) {
+				if depth > 4 || seen[v] || v.Referrers() == nil {
+					return
+				}
+				seen[v] = true
+				for _, ref := range *v.Referrers() {
+					switch x := ref.(type) {
+					case *ssa.Phi:
+						visit(x, depth+1)
+					case *ssa.Call:
+						cal := x.Call.StaticCallee()
+						if cal != nil && cal.Name() == "Let" {
+							okUse = false
+							detail = "bound by Let unevaluated at " + c.Pos(x.Pos())
+						} else if cal != nil && !evaluates(cal) && cal.Pkg != nil && cal.Pkg.Pkg.Path() == core.SlipPath {
+							// passed on to a function of package slip that does not evaluate: not proven
+							okUse = false
+							detail = "handed to " + cal.Name() + ", which does not evaluate, at " + c.Pos(x.Pos())
+						}
+					}
+				}
+			}
+			visit(u, 0)
+			// which parameter mode is being bound: the constant the `mode` switch compares with on the way here
+			modeName := "?"
+			g := core.ComputeGuards(fn, nil)
+			for fact := range g.Facts(b) {
+				bo, ok := fact.If.Cond.(*ssa.BinOp)
+				if !ok || bo.Op != token.EQL || !fact.Branch {
+					continue
+				}
+				if cst, ok := bo.Y.(*ssa.Const); ok && cst.Value != nil && cst.Value.Kind() == constant.Int {
+					for _, nm := range []string{"reqMode", "optMode", "restMode", "keyMode", "auxMode"} {
+						if k, ok := c.Pkg("").Types.Scope().Lookup(nm).(*types.Const); ok && constant.Compare(k.Val(), token.EQL, cst.Value) {
+							modeName = nm
+						}
+					}
+				}
+			}
+			key := "slip.(Lambda).Call|default bound in " + modeName
+			if !okUse && modeName == "restMode" {
+				r.Hold(rule, key, c.Pos(u.Pos()), "accepted by reading: the parameter after &rest is a plain symbol, DefLambda records no default form for it, so the value bound when no arguments are left over is nil")
+				continue
+			}
+			r.Decide(okUse, rule, key, c.Pos(u.Pos()), detail)
+		}
+	}
 }
